@@ -3,7 +3,7 @@ import ScrutModel.Model.Template
 # Model of the single-script execution mode (`src/executors/bash_script_executor.rs`)
 
 * `compileScript`: layout of the script (exports of the first test, then per test: the expression
-  verbatim, an empty line, `__SCRUT_EXIT_CODE=$?`, `echo "<divider>"`, `1>&2 echo "<divider>"` unless
+  verbatim, an empty line, `__SCRUT_EXIT_CODE=$?`, `\builtin echo "<divider>"`, `1>&2 \builtin echo "<divider>"` unless
   combined, and `unset __SCRUT_EXIT_CODE`; the divider text ends in `$__SCRUT_EXIT_CODE`, not in `$?`).
 * `parseDivider` (`parse_divider_bytes`), `parseSalted` (`parse_salted_divider_bytes`), `iterate`:
   splitting a captured stream at the divider lines `~~~~~~~~EXECDIVIDER::<salt>::<index>::<exit code>`;
@@ -228,8 +228,12 @@ def EXITVAR : List Char :=
 pipeline: the divider is then left without an exit code) -/
 def assignLine : List Char := EXITVAR ++ ['=', '$', '?']
 
-/-- the line `unset __SCRUT_EXIT_CODE` that closes the footer of a test -/
-def unsetLine : List Char := ['u', 'n', 's', 'e', 't', ' '] ++ EXITVAR
+/-- `\builtin ` (fix after cae5ffa: the footer calls the builtins, whatever functions or aliases of
+these names the test cases define) -/
+def BUILTIN : List Char := ['\\', 'b', 'u', 'i', 'l', 't', 'i', 'n', ' ']
+
+/-- the line `\builtin unset __SCRUT_EXIT_CODE` that closes the footer of a test -/
+def unsetLine : List Char := BUILTIN ++ ['u', 'n', 's', 'e', 't', ' '] ++ EXITVAR
 
 /-- `generate_divider`: `~~~~~~~~EXECDIVIDER::<salt>::<index>::$__SCRUT_EXIT_CODE` -/
 def dividerText (salt : List Char) (index : Nat) : List Char :=
@@ -237,14 +241,14 @@ def dividerText (salt : List Char) (index : Nat) : List Char :=
 
 /-- the line `echo "<divider>"` -/
 def echoLine (salt : List Char) (index : Nat) : List Char :=
-  ['e', 'c', 'h', 'o', ' ', '"'] ++ dividerText salt index ++ ['"']
+  BUILTIN ++ ['e', 'c', 'h', 'o', ' ', '"'] ++ dividerText salt index ++ ['"']
 
 /-- the line `1>&2 echo "<divider>"` -/
 def echoErrLine (salt : List Char) (index : Nat) : List Char :=
-  ['1', '>', '&', '2', ' ', 'e', 'c', 'h', 'o', ' ', '"'] ++ dividerText salt index ++ ['"']
+  ['1', '>', '&', '2', ' '] ++ BUILTIN ++ ['e', 'c', 'h', 'o', ' ', '"'] ++ dividerText salt index ++ ['"']
 
 /-- lines of the script for test `index`: the expression, an empty line, `__SCRUT_EXIT_CODE=$?`,
-`echo "<divider>"`, `1>&2 echo "<divider>"` (unless combined), `unset __SCRUT_EXIT_CODE` -/
+`\builtin echo "<divider>"`, `1>&2 \builtin echo "<divider>"` (unless combined), `\builtin unset __SCRUT_EXIT_CODE` -/
 def testLines (salt : List Char) (combined : Bool) (index : Nat) (expr : List Char) : List (List Char) :=
   [expr, [], assignLine, echoLine salt index] ++
     (if combined then [] else [echoErrLine salt index]) ++ [unsetLine]
